@@ -140,9 +140,11 @@ ConnsAspects(T, oc) ==
 \* od: Seq([id, objs : Seq([type, alive, ct, dt])]) for connection k
 DbAspects(d, od) ==
   LET ids == {od[j].id : j \in 1..Len(od)} IN
-  IF ids # DOMAIN d \/ Len(od) # Cardinality(ids) THEN {"db.ids"}
-  ELSE UNION {
+  \* a difference in the ids, or in the number of incarnations of an id, does not hide what the incarnations both sides
+  \* have look like
+  (IF ids # DOMAIN d \/ Len(od) # Cardinality(ids) THEN {"db.ids"} ELSE {}) \cup UNION {
     LET i == od[j].id  os == od[j].objs IN
+    IF i \notin DOMAIN d THEN {} ELSE
     (IF Len(os) # Len(d[i]) THEN {"db.count"} ELSE {}) \cup UNION {
       (IF os[g].type = d[i][g].type THEN {} ELSE {"db.type"})
       \cup (IF os[g].alive = d[i][g].alive THEN {} ELSE {"db.alive"})
